@@ -1,4 +1,5 @@
-import SaVerif.Model.Result
+import SaVerif.Model.ResultMemo
+import SaVerif.Gen.ResultPolicy
 import SaVerif.Drv.Parse
 /-!
 Sub-driver for M-RESULT.
@@ -6,6 +7,10 @@ Sub-driver for M-RESULT.
   result run <kind> <sss> <width> <rows> <ops>     real strategies (`Src.ops`)
   result plain <kind> <sss> <width> <rows> <ops>   the bare-list reference (`Plain.ops`)
   result hazards <kind> <sss> <width> <rows> <ops> hazard flag per op (0/1)
+  result mrun <kind> <sss> <width> <rows> <ops>    real strategies + memoized getters, reset policy
+                                                   regenerated from the source (Gen/ResultPolicy)
+  result mpure <kind> <sss> <width> <rows> <ops>   same, every call reading the current configuration
+  result mhazards …                                hazard flags of the memoizing run
 
 kind   default | buffered:<max_row_buffer> | full | iter | chunked:<0|1>
        | merged:<kind>+<kind>+…   (rows then hold one group per child, separated by `|`)
@@ -144,6 +149,9 @@ def showOut : Out → String
 def isCursorKind (kind : String) : Bool :=
   kind == "default" || kind == "full" || kind.startsWith "buffered:"
 
+def ypKindOf (kind : String) : YpKind :=
+  if isCursorKind kind then 1 else if kind.startsWith "chunked:" then 2 else 0
+
 def handle : List String → String
   | [cmd, kind, sss, width, rows, ops] =>
     match parseSrc? kind rows, parseBit? sss, width.toNat?, parseOps? ops with
@@ -157,6 +165,15 @@ def handle : List String → String
         | "run" => ";".intercalate ((run Src.ops (St.init src sssB w) os).map (fun o => showOut o.1))
         | "hazards" =>
           ";".intercalate ((run Src.ops (St.init src sssB w) os).map (fun o => if o.2 then "1" else "0"))
+        | "mrun" =>
+          ";".intercalate ((mrun Src.ops Gen.ResultPolicy.policy true (MSt.init src sssB w (ypKindOf kind)) os).map
+            (fun o => showOut o.1))
+        | "mpure" =>
+          ";".intercalate ((mrun Src.ops Gen.ResultPolicy.policy false (MSt.init src sssB w (ypKindOf kind)) os).map
+            (fun o => showOut o.1))
+        | "mhazards" =>
+          ";".intercalate ((mrun Src.ops Gen.ResultPolicy.policy true (MSt.init src sssB w (ypKindOf kind)) os).map
+            (fun o => if o.2 then "1" else "0"))
         | "plain" =>
           let p : Plain := { rem := rs, hard := false, d1 := kind == "default" }
           ";".intercalate ((run Plain.ops (St.init p sssB w) os).map (fun o => showOut o.1))
